@@ -1,0 +1,60 @@
+//go:build verif
+
+// Verification-only re-exports for the /verif harnesses of properties C02 and
+// C03.  Compiled only with `-tags verif`; adds no behaviour.
+
+package calc
+
+import (
+	"time"
+
+	"github.com/projectcalico/calico/felix/dispatcher"
+	"github.com/projectcalico/calico/libcalico-go/lib/backend/model"
+)
+
+// VerifNewHostInfo builds a HostInfo (all of its fields are unexported).
+func VerifNewHostInfo(ip4, ip6, asn string, labels map[string]string) *HostInfo {
+	return &HostInfo{ip4Addr: ip4, ip6Addr: ip6, asnumber: asn, labels: labels}
+}
+
+// VerifPolKV builds a PolKV whose metadata comes from the real ExtractPolicyMetadata.
+func VerifPolKV(key model.PolicyKey, pol *model.Policy) PolKV {
+	m := ExtractPolicyMetadata(pol)
+	return PolKV{Key: key, Value: &m}
+}
+
+// VerifPolKVMeta exposes the fields of the unexported policyMetadata of a PolKV.
+func VerifPolKVMeta(p PolKV) (ok bool, order float64, flags uint8, tier string) {
+	if p.Value == nil {
+		return false, 0, 0, ""
+	}
+	return true, p.Value.Order, uint8(p.Value.Flags), p.Value.Tier
+}
+
+// VerifSorter exposes the PolicyResolver's PolicySorter.
+func (pr *PolicyResolver) VerifSorter() *PolicySorter { return pr.policySorter }
+
+// VerifPending reports whether a policy is in pendingPolicyUpdates.
+func (pr *PolicyResolver) VerifPending(k model.PolicyKey) bool { return pr.pendingPolicyUpdates.Contains(k) }
+
+// VerifWireLocalDispatcher re-exports the unexported wiring helpers that NewCalculationGraph uses for
+// the local-endpoint dispatcher (localEndpointDispatcherReg + endpointHostnameFilter), in the same order.
+func VerifWireLocalDispatcher(all *dispatcher.Dispatcher, hostname string) *dispatcher.Dispatcher {
+	local := dispatcher.NewDispatcher()
+	(*localEndpointDispatcherReg)(local).RegisterWith(all)
+	(&endpointHostnameFilter{hostname: hostname}).RegisterWith(local)
+	return local
+}
+
+// VerifSetChannels replaces the AsyncCalcGraph's input and flush-tick channels so that a harness can
+// drive loop() deterministically (unbuffered rendezvous instead of a timer).
+func (acg *AsyncCalcGraph) VerifSetChannels(in chan any, flushTicks <-chan time.Time) {
+	acg.inputEvents = in
+	acg.flushTicks = flushTicks
+}
+
+// VerifLoop runs loop(); a panic (used by the harness to stop the goroutine) ends it quietly.
+func (acg *AsyncCalcGraph) VerifLoop(done chan<- any) {
+	defer func() { done <- recover() }()
+	acg.loop()
+}
